@@ -329,15 +329,15 @@ class L14twin(Component):
     def up_out(): s.out @= s.e
 class L15(Component):   # a written slice strictly contains the slice the other block reads (and the other way round): block-level cycle
   def construct(s):
-    s.in_ = InPort(8); s.a = Wire(8); s.q = Wire(4); s.out = OutPort(8); s.o2 = OutPort(4)
+    s.in_ = InPort(8); s.a = Wire(16); s.q = Wire(4); s.out = OutPort(8); s.o2 = OutPort(4)
     @update
     def upW():
       s.a[0:8] @= s.in_ ^ 0x5a
       s.o2 @= s.q + 1
     @update
     def upR():
-      s.q @= s.a[2:6]
-      s.out @= s.a
+      s.q @= s.a[2:6]            # the ONLY read of s.a: the cycle is closed by a written slice that strictly contains the read one
+      s.out @= s.in_
 class L15twin(Component):
   def construct(s):
     s.in_ = InPort(8); s.out = OutPort(8); s.o2 = OutPort(4); s.a = Wire(8)
@@ -345,7 +345,7 @@ class L15twin(Component):
     def up_a(): s.a @= s.in_ ^ 0x5a
     @update
     def up_o():
-      s.out @= s.a
+      s.out @= s.in_
       s.o2 @= s.a[2:6] + 1
 class L16(Component):   # reader slice contains the written slices
   def construct(s):
